@@ -73,6 +73,18 @@ pub const INVALID_MENU: [(&str, &str); 30] = [
     ("struct-member-wrong-io", "struct O { @location(0) a: mat2x2<f32> };\n@fragment fn m() -> O { var o: O; return o; }\n"),
 ];
 
+/// Sources naga accepts (parse + validate) for which the generator itself answers with one of its own
+/// errors or panics: the answer must not depend on whether validation is enabled.
+pub const GENERATOR_MENU: [(&str, &str); 7] = [
+    ("duplicate-slot-unused", "@group(0) @binding(0) var<uniform> a: vec4<f32>;\n@group(0) @binding(0) var<uniform> b: vec4<f32>;\n@compute @workgroup_size(1) fn m() { }\n"),
+    ("duplicate-slot-different-entries", "@group(0) @binding(0) var<uniform> a: vec4<f32>;\n@group(0) @binding(0) var<uniform> b: vec4<f32>;\n@vertex fn v() -> @builtin(position) vec4<f32> { return a; }\n@fragment fn f() -> @location(0) vec4<f32> { return b; }\n"),
+    ("duplicate-slot-one-used", "@group(0) @binding(1) var t: texture_2d<f32>;\n@group(0) @binding(1) var s: sampler;\n@compute @workgroup_size(1) fn m() { _ = textureDimensions(t); }\n"),
+    ("non-consecutive-groups", "@group(1) @binding(0) var<uniform> a: vec4<f32>;\n@compute @workgroup_size(1) fn m() { _ = a.x; }\n"),
+    ("gap-in-groups", "@group(0) @binding(0) var<uniform> a: vec4<f32>;\n@group(2) @binding(0) var<uniform> b: vec4<f32>;\n@compute @workgroup_size(1) fn m() { _ = a.x + b.x; }\n"),
+    ("binding-array-unsupported", "@group(0) @binding(0) var ts: binding_array<texture_2d<f32>, 4>;\n@compute @workgroup_size(1) fn m() { _ = textureDimensions(ts[0]); }\n"),
+    ("atomic-global-unsupported", "@group(0) @binding(0) var<storage, read_write> c: atomic<u32>;\n@compute @workgroup_size(1) fn m() { atomicAdd(&c, 1u); }\n"),
+];
+
 const INJECTS: [&str; 10] = ["\0", "\u{feff}", "\u{202e}", "\"", "/*", "@", "}", "\u{1F600}", "\r", "7"];
 
 fn cap_sets() -> Vec<(String, Option<WgslCapabilities>)> {
@@ -323,6 +335,9 @@ pub fn inputs(thorough: bool) -> Vec<Input> {
     for (name, src) in INVALID_MENU {
         out.push(Input { key: format!("menu|{name}"), src: src.to_string() });
     }
+    for (name, src) in GENERATOR_MENU {
+        out.push(Input { key: format!("generator-menu|{name}"), src: src.to_string() });
+    }
     if thorough {
         double_edits(BASES[0].0, BASES[0].1, &mut out);
     }
@@ -348,7 +363,7 @@ pub fn run(tier: &str) -> i32 {
         rep.merge(r);
     }
     rep.traces_validated = rep.evaluations;
-    rep.rule = format!("{} base shaders: every truncation, single-character deletion, adjacent swap and 10 injects (NUL, BOM, RLO, quote, comment opener, @, }}, emoji, CR, digit) at every position for {} of them; every token deletion / duplication / adjacent swap for all; 30 parsable-but-invalid modules{}; each x 6 validation settings (off, all, empty, 3 capability subsets). Oracle: naga called directly (parse error <=> ParseError with naga's message and rendering; validator error <=> ValidationError; no panic; passing sources give the same outcome with validation on and off). Non-trivial = a source that passed and was generated.", BASES.len(), "all 8", if thorough { "; all double edits {delete, 3 injects}^2 of the smallest base" } else { "" });
+    rep.rule = format!("{} base shaders: every truncation, single-character deletion, adjacent swap and 10 injects (NUL, BOM, RLO, quote, comment opener, @, }}, emoji, CR, digit) at every position for {} of them; every token deletion / duplication / adjacent swap for all; 30 parsable-but-invalid modules and 7 valid modules the generator itself rejects (duplicate slots not used together, non-dense groups, unsupported globals){}; each x 6 validation settings (off, all, empty, 3 capability subsets). Oracle: naga called directly (parse error <=> ParseError with naga's message and rendering; validator error <=> ValidationError; no panic; passing sources give the same outcome with validation on and off). Non-trivial = a source that passed and was generated.", BASES.len(), "all 8", if thorough { "; all double edits {delete, 3 injects}^2 of the smallest base" } else { "" });
     if rep.outcomes.len() < 3 {
         machinery("C17: fewer than 3 outcome classes");
     }
